@@ -80,7 +80,7 @@ theorem init_off {cfg : Cfg} {stks : List (List Problem.Wrapper)} {rootEnv : New
     (hoff : cfg.hibernation = false) (hi : init cfg stks rootEnv = .ok t0) :
     NoneAsleep t0 ∧ t0.cfg.hibernation = false := by
   have ce := createDeme_effect hi
-  obtain ⟨old, d, hd, hf, _, _, _, _, _, hhib, _⟩ := ce.demes
+  obtain ⟨old, d, hd, hf, _, _, _, _, _, _, hhib, _⟩ := ce.demes
   have hold : old = [] := by cases hf; rfl
   refine ⟨?_, by rw [ce.cfg]; exact hoff⟩
   intro x hx; rw [hd, hold] at hx; simp only [List.nil_append, List.mem_singleton] at hx; subst hx; exact hhib
